@@ -85,9 +85,38 @@ SimplifyContract(ev, M) ==
            ELSE Clause("merged", Len(ev.post) <= NClasses(ev), <<NClasses(ev), Len(ev.post)>>)
       ELSE <<>>)
 
+(* -- evaluate_deltas (C09) ---------------------------------------------------- *)
+(* information order: x carries at least the space and spin information of y *)
+AtLeastInfoIdx(ev, x, y) ==
+  LET a == ev.idx[x]  b == ev.idx[y] IN
+  (b.s = "g" \/ a.s = b.s) /\ (b.p = "" \/ a.p = b.p)
+
+DeltaPairs(t) == {<<t.objs[k].u[1], t.objs[k].u[2]>> : k \in {j \in 1..Len(t.objs) : t.objs[j].k = "D"}}
+
+RECURSIVE ReachBy(_, _, _)
+ReachBy(S, D, n) ==
+  IF n = 0 THEN S
+  ELSE ReachBy(S \cup {d[2] : d \in {f \in D : f[1] \in S}}
+                 \cup {d[1] : d \in {f \in D : f[2] \in S}}, D, n - 1)
+
+DeltaContract(ev, M) ==
+  ValEq(ev, M, ev.pre, ev.post)
+  \o (IF Len(ev.pre) = 1 /\ Len(ev.post) = 1 THEN
+        LET t == ev.pre[1]  u == ev.post[1]
+            before == TermIdx(t)  after == TermIdx(u)
+            D == DeltaPairs(t)
+            lost == {x \in before \ after :
+                       ~\E y \in after : y \in ReachBy({x}, D, Cardinality(D)) /\ AtLeastInfoIdx(ev, y, x)}
+        IN Clause("info", lost = {}, lost)
+           \o Clause("target-lost", (SeqRange(ev.tgt) \cap before) \subseteq after,
+                     (SeqRange(ev.tgt) \cap before) \ after)
+           \o Clause("new-index", after \subseteq before, after \ before)
+      ELSE <<>>)
+
 (* -- the contract per operation ------------------------------------------ *)
 Contract(ev, M) ==
   CASE ev.op = "valpres" -> ValEq(ev, M, ev.pre, ev.post)
     [] ev.op = "simplify" -> SimplifyContract(ev, M)
+    [] ev.op = "evaluate_deltas" -> DeltaContract(ev, M)
     [] OTHER -> << <<"unknown-op", ev.op>> >>
 =============================================================================
